@@ -291,6 +291,13 @@ def classify(res, prop):
         if job.ignorefn and not tg and job.ignorefn in c.get("function", ""):
             out["ignored_unvalidated"] = out.get("ignored_unvalidated", 0) + 1
             continue
+        if job.family == "TBMC" and not tg and not in_repo(c) and not in_harness(c) and cat != "unwind":
+            # a check inside std / Kani's allocator model (e.g. __rust_dealloc) cannot be attributed to a pass: the
+            # first pass of a non-last thread runs against a guess that is not yet accepted and can drive such
+            # library code into nonsense. Memory safety of the library calls is decided by the sequential
+            # families (SEQ/IND/ENV), not by TBMC.
+            out["ignored_unvalidated"] = out.get("ignored_unvalidated", 0) + 1
+            continue
         if job.expectpanic and job.expectpanic in desc and in_repo(c):
             n_expected_panics += 1
             continue
